@@ -35,9 +35,10 @@ def _calls_rec(P, f, depth=3):
 def r1_next_wakeup(ctx, rule='C05.R1'):
     ctx.set_rule(rule)
     P = ctx.P
-    fnext = ctx.anchor(TQ + '::next')
-    if not fnext:
+    sc = P.scope_of(TQ + '::next')   # the slot search: TimerQueue::next, or Driver::next if the delegate was merged into it
+    if not ctx.floor('function computing the next wake-up (TimerQueue::next)', len(sc), 1):
         return
+    fnext = sc[0]
     # (a) can an emptied slot stay in the pending list?
     removers = []
     for f in P.fn_list:
@@ -83,6 +84,15 @@ def _selects_nonempty(ctx, g):
             return True
         if a and a[0] == 'cmp' and _len_positive(a):
             return True
+    # (a') `nonempty.then_some(time)` / `nonempty.then(|| time)` (find_map form)
+    for b, t in ret_trees(g):
+        t = peel(t)
+        if t[0] == 'call' and t[1].endswith(('bool::then_some', 'bool::then')) and t[2]:
+            a = atom_of(peel(t[2][0]), ('eq', 1))
+            if a and a[0] == 'bool' and a[2] is False and a[1][0] == 'call' and a[1][1].endswith('::is_empty') and _mentions_entries(a[1]):
+                return True
+            if a and a[0] == 'cmp' and _len_positive(a):
+                return True
     # (b) branching: every accepting path carries the non-emptiness fact
     n = 0
     for path, outcome, decs in fn_paths(ctx, g):
@@ -177,6 +187,8 @@ def r2_ready_wake_agreement(ctx):
     for b in sorted(fb.reachable()):
         for i, st in enumerate(fb.stmts(b)):
             if st['k'] == 'assign' and st['r']['k'] == 'agg' and st['r'].get('ak') == 'closure':
+                if strip_generics(st['r']['def']) not in {g.key for g, _ in atoms}:
+                    continue   # not a slot predicate (e.g. the closure unwrapping the Arc)
                 caps = [peel(fb.expr_operand(o, b, i)) for o in st['r']['ops']]
                 ok = all(c[0] == 'call' and c[1] == NOW for c in caps) and caps
                 ctx.check(bool(ok), 'bump-captures-now', "bump's slot predicate compares with the value of SimTime::now()", fb.where(b), [show(c) for c in caps])
@@ -207,6 +219,7 @@ def r3_wakeup_scheduling(ctx, rule='C05.R3'):
             ok = v == t and from_next
             detail.update({'stored': show_c(v), 'scheduled_at': show_c(t)})
             atoms = [a for _, a in path_atoms(f, path, decs)]
+            atoms = atoms + filter_facts(f, atoms)
             guard = any(a[0] == 'cmp' and a[1] == 'lt' and a[2] == v and a[3][0] == 'field' and a[3][2] == 'next_wakeup' for a in atoms)
             ok = ok and guard
             detail['guard'] = [show_atom(a) for a in atoms if a[0] == 'cmp']
@@ -226,7 +239,7 @@ def r3_wakeup_scheduling(ctx, rule='C05.R3'):
 def activation_wake_order(ctx, f, prefix=''):
     """activate: bump -> wake every bumped slot -> install the driver (shared with C06.R3)"""
     P = ctx.P
-    bump = f.calls_to(D + 'Driver::bump')
+    bump = f.calls_to(D + 'Driver::bump') or f.calls_to(TQ + '::bump')   # the delegate Driver::bump may have been removed
     sets = f.calls_to(D + 'Driver::set')
     wakes = per_item_calls(P, f, TS + '::wake_all')
     if not (ctx.floor('Driver::bump in activate', len(bump), 1) and ctx.floor('Driver::set in activate', len(sets), 1) and ctx.floor('wake_all in activate', len(wakes), 1)):
@@ -237,7 +250,7 @@ def activation_wake_order(ctx, f, prefix=''):
         order = f.dominates(b0.b, w.anchor) and f.dominates(w.anchor, s0.b) and w.anchor not in f.reach_from(s0.b) and b0.b != s0.b
         ctx.check(order, prefix + 'bump-wake-set-order',
                   'activate bumps the timer queue, wakes every due slot and only then installs the driver for the callback', s0.where(), {'form': w.form})
-        ok = w.it is not None and w.it[0] == 'call' and w.it[1] == D + 'Driver::bump' and w.exhaustive
+        ok = w.it is not None and w.it[0] == 'call' and w.it[1] in (D + 'Driver::bump', TQ + '::bump') and w.exhaustive
         ctx.check(ok, prefix + 'wake-all-bumped', 'every slot returned by bump is woken (the iteration runs over the whole bump result, no early exit)', w.site.where(),
                   {'iterator': show(w.it)[:160] if w.it else None, 'form': w.form, 'exhaustive': w.exhaustive})
     return bump, sets, wakes
@@ -260,7 +273,7 @@ def r4_wake_before_callback(ctx):
             g = any(a[0] == 'cmp' and a[1] == 'le' and a[2][0] == 'field' and a[2][2] == 'next_wakeup' and any(x[0] == 'call' and x[1] == NOW for x in walk(a[3])) for a in atoms)
             v = f.expr_rvalue(st['r'], b, i)
             ctx.check(g and 'MAX' in show(v), 'clear-reached-wakeup', 'a reached next_wakeup (<= now) is cleared to MAX so that later timers are scheduled again', f.where(b), [show_atom(a) for a in atoms])
-            ctx.check(f.dominates(bump[0].b, b) and sets[0].b in f.reach_from(b) and b not in f.reach_from(sets[0].b), 'clear-before-set', 'the clear happens before the driver is installed', f.where(b))
+            ctx.check(sets[0].b in f.reach_from(b) and b not in f.reach_from(sets[0].b), 'clear-before-set', 'the clear happens before the driver is installed', f.where(b))
 
 
 def r5_registration(ctx, rule='C05.R5'):
@@ -460,7 +473,7 @@ def r7_interval(ctx):
     txt = show(t)
     has_period = any(x[0] == 'field' and x[2] == 'period' for x in walk(t))
     has_deadline = any(x[0] == 'call' and x[1] == SLEEP + '::deadline' for x in walk(t))
-    has_missed = any(x[0] == 'call' and x[1].endswith('MissedTickBehavior::next_timeout') for x in walk(t))
+    has_missed = any(x[0] == 'call' and (x[1].endswith('MissedTickBehavior::next_timeout') or x[1] == NOW) for x in walk(t))
     ctx.check(has_period and has_deadline and has_missed, 're-arm-value', 'the next tick is the old deadline + period, or the missed-tick policy result', s.where(), txt[:300])
     # returns the old deadline
     ok = False
